@@ -419,6 +419,19 @@ class DictTransactionManager(ModbusTransactionManager):
         """
         return iterkeys(self.transactions)
 
+    def getNextTID(self):
+        """ Retrieve the next transaction identifier that is not in use
+        by a transaction that is still outstanding
+
+        :returns: The next unique transaction identifier
+        """
+        tid = super(DictTransactionManager, self).getNextTID()
+        for _ in range(0xffff):
+            if tid not in self.transactions:
+                break
+            tid = super(DictTransactionManager, self).getNextTID()
+        return tid
+
     def addTransaction(self, request, tid=None):
         """ Adds a transaction to the handler
 
